@@ -392,6 +392,29 @@ pub fn run(ctx: &Ctx) -> i32 {
                         }
                     }
                 }
+                // nested-mapping members over an array of objects: each member is satisfied when
+                // SOME element satisfies it (members may be satisfied by different elements), and a
+                // scalar or null in the field satisfies none
+                if !dup && *q != Q::Plain && f == Fam::Nested {
+                    for m1 in 0u32..(1 << k) {
+                        for m2 in m1..(1 << k) {
+                            let (Some(v1), Some(v2)) = (value_for(f, k, m1), value_for(f, k, m2)) else { continue };
+                            let ntrue = (m1 | m2).count_ones() as usize;
+                            let n = match q {
+                                Q::Of(n) => Some(*n),
+                                _ => Some(len as u64),
+                            };
+                            for arr in [vec![v1.clone(), v2.clone()], vec![DVal::s("x"), v2.clone(), DVal::Obj(vec![]), v1.clone()]] {
+                                let doc = DVal::Obj(vec![("k".into(), DVal::Arr(arr))]);
+                                check_pair(&mut rep, &rf, &qa, ea.as_ref(), &doc, &format!("key nested-over-array {:?} k={}", q, k), Some(ntrue), n);
+                                rep.count("nested_array_cells");
+                            }
+                        }
+                    }
+                    for v in [DVal::s("x"), DVal::Null, DVal::UInt(3), DVal::Arr(vec![]), DVal::Arr(vec![DVal::s("x")])] {
+                        check_pair(&mut rep, &rf, &qa, ea.as_ref(), &DVal::Obj(vec![("k".into(), v)]), &format!("key nested-over-scalar {:?} k={}", q, k), Some(0), match q { Q::Of(n) => Some(*n), _ => Some(len as u64) });
+                    }
+                }
                 // condition-level quantifier over an identifier with the same members as entries
                 // on distinct fields k0..: entry i is `k{i}: member`
                 if f != Fam::Nested {
@@ -509,7 +532,7 @@ pub fn run(ctx: &Ctx) -> i32 {
         ctx,
         rep,
         Meta {
-            rule: format!("member families (contains, i-contains, regex, i-regex, regexes under the wildcard spellings the rewrite pass strips, mixed string kinds, nested prefixes, numeric thresholds, integers, nested mappings) x list length 1..{} (+ a duplicated member) x quantifier {{plain, all, of(n) for n in 0..len+1}} x every subset of members made true by a scalar field value (complete for each family) x {{key list, condition-level quantifier over a sequence identifier, over a mapping identifier}}; each quantified rule is compared with the same rule written out with explicit and/or/not over one-member identifiers (both run by the real engine) and with member counting in the reference interpreter (key lists also after optimisation with four switch sets); plus two- and three-element array fields whose elements make chosen member subsets true (string families), random mixed member lists and identifiers whose entries are lists. non-trivial = number of true members within 1 of the threshold; distinct by (form, family, length, threshold, true members)", maxk),
+            rule: format!("member families (contains, i-contains, regex, i-regex, regexes under the wildcard spellings the rewrite pass strips, mixed string kinds, nested prefixes, numeric thresholds, integers, nested mappings) x list length 1..{} (+ a duplicated member) x quantifier {{plain, all, of(n) for n in 0..len+1}} x every subset of members made true by a scalar field value (complete for each family) x {{key list, condition-level quantifier over a sequence identifier, over a mapping identifier}}; each quantified rule is compared with the same rule written out with explicit and/or/not over one-member identifiers (both run by the real engine) and with member counting in the reference interpreter (key lists also after optimisation with four switch sets); plus two- and three-element array fields whose elements make chosen member subsets true (string families), nested-mapping members over arrays of objects (a member holds when some element satisfies it) and over scalars, random mixed member lists and identifiers whose entries are lists. non-trivial = number of true members within 1 of the threshold; distinct by (form, family, length, threshold, true members)", maxk),
             exhaustive: true,
             assumptions: vec!["on an array-valued field only the bracket of the two readings is checked (true when one element alone reaches the threshold, not true when the union of all elements does not)".into(), "all(X)/of(X,n) over a one-entry mapping whose value is a list is left open (Appendix A)".into()],
             min_nontrivial: 300,
